@@ -142,6 +142,26 @@ def c04(rnd, budget):
             pass
         except Exception as e:
             return dict(violation=True, cases=cases, what="iterator failure surfaced as %r" % (e,), witness=ret)
+    # ... whatever pre_dispatch is, also when nothing (or nothing still running) has been dispatched when the input fails
+    def fails_at_once():
+        raise ValueError("input broke at once")
+        yield  # noqa
+    def fails_after_one_finished_task():
+        yield delayed(task)(0)
+        time.sleep(0.3)
+        raise ValueError("input broke after the first task had finished")
+    for gen in (fails_at_once, fails_after_one_finished_task):
+        for pre in ("all", 1, "2*n_jobs"):
+            for ret in ("list", "generator"):
+                cases += 1
+                try:
+                    out = list(Parallel(n_jobs=2, backend="threading", pre_dispatch=pre, return_as=ret)(gen()))
+                    return dict(violation=True, cases=cases, what="the input iterable raised ValueError but the call returned %r" % (out,),
+                                witness=dict(input=gen.__name__, pre_dispatch=pre, return_as=ret, backend="threading", n_jobs=2))
+                except ValueError:
+                    pass
+                except Exception as e:
+                    return dict(violation=True, cases=cases, what="iterator failure surfaced as %r" % (e,), witness=dict(input=gen.__name__, pre_dispatch=pre))
     # ... also when the failing pull is made by a completion callback with nothing else outstanding (pre_dispatch=1)
     def late_bad_input(k):
         for i in range(k):
@@ -167,6 +187,55 @@ def c04(rnd, budget):
     except (TimeoutError, multiprocessing.TimeoutError):
         if time.time() - t0 > 2.5:
             return dict(violation=True, cases=cases, what="TimeoutError only after %.1fs" % (time.time() - t0), witness="timeout=0.3")
+    # a call that fails before anything runs (the argument is not iterable; n_jobs resolves to nothing usable) leaves the object usable
+    for managed in (False, True):
+        for bad_input, exc in ((5, TypeError), (None, TypeError)):
+            cases += 1
+            p = Parallel(n_jobs=2, backend="threading")
+            if managed:
+                p.__enter__()
+            try:
+                try:
+                    p(bad_input)
+                    return dict(violation=True, cases=cases, what="Parallel()(%r) did not raise" % (bad_input,), witness=dict(managed=managed))
+                except exc:
+                    pass
+                try:
+                    out = p(delayed(abs)(-i) for i in range(4))
+                except Exception as e:  # noqa
+                    return dict(violation=True, cases=cases, what="after Parallel()(%r) raised %s, the next call on the same object raised %r" % (bad_input, exc.__name__, e),
+                                witness=dict(first_call_argument=repr(bad_input), managed=managed))
+                if out != [0, 1, 2, 3]:
+                    return dict(violation=True, cases=cases, what="call after a rejected call returned %r" % (out,), witness=dict(managed=managed))
+            finally:
+                if managed:
+                    p.__exit__(None, None, None)
+    # tasks that never complete: TimeoutError, and afterwards the same object - inside or outside a with block - serves a new call
+    import threading as _th
+    for managed in (False, True):
+        cases += 1
+        never = _th.Event()
+        p = Parallel(n_jobs=2, backend="threading", timeout=0.3)
+        if managed:
+            p.__enter__()
+        try:
+            try:
+                p(delayed(never.wait)(30) for _ in range(4))
+                return dict(violation=True, cases=cases, what="no TimeoutError for tasks that never complete", witness=dict(managed=managed))
+            except (TimeoutError, multiprocessing.TimeoutError):
+                pass
+            t1 = time.time()
+            try:
+                out = p(delayed(abs)(-i) for i in range(6))
+            except Exception as e:  # noqa
+                return dict(violation=True, cases=cases, what="call after a timed-out call raised %r instead of returning the new results" % (e,),
+                            witness=dict(managed=managed, backend="threading", timeout=0.3))
+            if out != list(range(6)) or time.time() - t1 > 5:
+                return dict(violation=True, cases=cases, what="call after a timed-out call returned %r after %.1fs" % (out, time.time() - t1), witness=dict(managed=managed))
+        finally:
+            never.set()
+            if managed:
+                p.__exit__(None, None, None)
     # stale look-ahead batches of an aborted call (fixed defect F2): slow input, failure while a batch sits in the queue
     def slow_input(tag, n, fail_at):
         for i in range(n):
@@ -285,7 +354,32 @@ def c16(rnd, budget):
             return dict(violation=True, cases=cases, what="after closing the generator the next call returned %r" % (out,), witness=dict(managed=managed))
         if managed:
             p.__exit__(None, None, None)
-    return dict(violation=False, cases=cases)
+    known = {}
+    # K17 (recorded finding): while a completion callback pulls the next item from a slow input iterator it holds Parallel._lock, which
+    # the consumer needs to take a finished result out of the queue
+    def slow_input():
+        for i in range(5):
+            if i >= 2:
+                time.sleep(0.5)
+            yield delayed(abs)(-i)
+    gen = Parallel(n_jobs=2, backend="threading", return_as="generator", pre_dispatch=2, batch_size=1)(slow_input())
+    t1 = time.time()
+    next(gen)
+    waited = time.time() - t1
+    list(gen)
+    known["K17"] = ("first result (an instant task) only after %.1fs of input generation" % waited) if waited > 0.35 else False
+    # K18 (recorded finding): a generator that outlives the with block of its Parallel object
+    with Parallel(n_jobs=2, backend="threading", return_as="generator") as pw:
+        g2 = pw(delayed(time.sleep)(0.03) for _ in range(6))
+        next(g2)
+    try:
+        list(g2)
+        known["K18"] = False
+    except AttributeError as e:
+        known["K18"] = "continuing the generator after the with block raises %r" % (e,)
+    except Exception:
+        known["K18"] = False
+    return dict(violation=False, cases=cases, known=known)
 
 
 if __name__ == "__main__":
@@ -297,6 +391,8 @@ if __name__ == "__main__":
             if which in (name, "all"):
                 r = fn(rnd, budget)
                 out["cases"] += r["cases"]
+                if r.get("known"):
+                    out.setdefault("known", {}).update(r["known"])
                 if r["violation"]:
                     r["cases"] = out["cases"]
                     r["what"] = name + ": " + r["what"]
